@@ -324,6 +324,8 @@ def verify(ob, tracer=None):
         res["reason"] = "EngineError: %s" % (e,)
     finally:
         Ctx.cur = None
+        if getattr(ob, "teardown", None):
+            ob.teardown()
     if res["verdict"] is None:
         if refuted is not None:
             res["verdict"] = "refuted"
@@ -357,7 +359,11 @@ def run_concrete(ob, assign=None, rng=None):
     if ob.before_path:
         ob.before_path()
     try:
-        post = ob.body(V)
+        try:
+            post = ob.body(V)
+        finally:
+            if getattr(ob, "teardown", None):
+                ob.teardown()
     except PreFalse as e:
         return "pre-false", str(e), V.used
     except (OutOfReach, PathDone) as e:
